@@ -53,7 +53,9 @@ RULE = (
     "the six dimensions the property's quantifier names (25 056 classes, exhaustive; one at-the-cap coding drawn per class) with "
     "size/auth/behaviour drawn per class, plus size x auth x behaviour x route x kind x all 8 encodings on otherwise good requests, plus route "
     "x kind x body x token x behaviour (4 176 classes, exhaustive) behind good headers; thorough: the full product (634 752 realisable "
-    "classes, exhaustive).  Every class is instantiated with a freshly generated concrete request (method name, parameters, "
+    "classes) factored as the server and the model read a request — every resource-level class (16 704) behind each of "
+    "the 6 (size, encoding) pairs the middleware chain lets through, and each of the 38 (size, encoding, auth) classes in "
+    "front of 1 500 drawn resource-level classes.  Every class is instantiated with a freshly generated concrete request (method name, parameters, "
     "malformed bytes found by seeded mutation + pyarrow classification, codec, junk headers, tampering variant).  A case "
     "is distinct by (class, concrete request bytes, headers); all cases are non-trivial."
 )
@@ -1108,20 +1110,30 @@ def _classes_quick(rng: Any) -> list[dict[str, str]]:
     return out
 
 
-def _classes_full() -> Any:
+def _classes_full(rng: Any) -> Any:
+    """Thorough tier.  The full product (634 752 realisable classes) is factored the way the server — and the model, see
+    `good_passing` in Proofs/C15 — looks at a request: the middleware chain reads only (wire size, encoding, auth), the
+    resources read only the rest.  (a) every resource-level class behind every (size, encoding) pair the chain lets
+    through; (b) every (size, encoding, auth) class in front of 1 500 drawn resource-level classes."""
+    passing = [("within", "none"), ("atCap", "none"), ("within", "supported")] + [("within", c) for c in CENCS[5:]]
     for route in ROUTES:
         for kind in KINDS:
             for body in BODIES:
                 for ctype in CTYPES:
-                    for cenc in CENCS:
-                        for size in SIZES:
-                            if size == "atCap" and cenc not in ("none", "unsupported", "corrupt"):
-                                continue  # a compressed body cannot be padded to an exact wire length
-                            for auth in AUTHS:
-                                for token in TOKENS:
-                                    for beh in BEHS:
-                                        yield {"route": route, "kind": kind, "body": body, "ctype": ctype, "cenc": cenc,
-                                               "size": size, "auth": auth, "token": token, "beh": beh}
+                    for token in TOKENS:
+                        for beh in BEHS:
+                            for size, cenc in passing:
+                                yield {"route": route, "kind": kind, "body": body, "ctype": ctype, "cenc": cenc,
+                                       "size": size, "auth": "ok", "token": token, "beh": beh}
+    for cenc in CENCS:
+        for size in SIZES:
+            if size == "atCap" and cenc not in ("none", "unsupported", "corrupt"):
+                continue  # a compressed body cannot be padded to an exact wire length
+            for auth in AUTHS:
+                for _ in range(1500):
+                    yield {"route": rng.choice(ROUTES), "kind": rng.choice(KINDS), "body": rng.choice(BODIES),
+                           "ctype": rng.choice(CTYPES), "cenc": cenc, "size": size, "auth": auth,
+                           "token": rng.choice(TOKENS), "beh": rng.choice(BEHS)}
 
 
 def _bases(env: Env) -> dict[str, tuple[bytes, str]]:
@@ -1200,11 +1212,11 @@ def run(ctx: Any) -> None:
         _run_classes(ctx, env, pool, _classes_quick(ctx.rng), 4, "q")
         ctx.note("class_product", "raised-budget search: quick class set x 4 instances")
     elif thorough:
-        classes = list(_classes_full())
+        classes = list(_classes_full(ctx.rng))
         _run_classes(ctx, env, pool, classes, 1, "full")
         ctx.exhaustive = True
         ctx.note("class_product", len(classes))
-        _run_classes(ctx, env, pool, _classes_quick(ctx.rng), 3, "q")
+        _run_classes(ctx, env, pool, _classes_quick(ctx.rng), 2, "q")
     else:
         classes = _classes_quick(ctx.rng)
         _run_classes(ctx, env, pool, classes, 1, "q")
@@ -1213,7 +1225,7 @@ def run(ctx: Any) -> None:
                                   "size/auth/behaviour drawn per class")
 
     # ---- byte-level fuzz stream: good headers, mutated bodies, all routes
-    n_fuzz = ctx.budget(4000, 120000)
+    n_fuzz = ctx.budget(4000, 80000)
     hdr = {"Content-Type": CT, "Authorization": "Bearer ok"}
     paths = {"unary:echo": "/echo", "init:gen": "/gen/init", "init:exch": "/exch/init", "exchange:exch": "/exch/exchange",
              "exchange:gen": "/gen/exchange"}
